@@ -13,5 +13,6 @@ import (
 	_ "verifmc/checks/c09"
 	_ "verifmc/checks/c12"
 	_ "verifmc/checks/c15"
+	_ "verifmc/checks/c16"
 	_ "verifmc/checks/c18"
 )
